@@ -1,9 +1,204 @@
-(** Proofs for C09 (signature -> CLI). *)
-From InvokeVerif Require Import Model.SigCtxModel Spec.C09Spec.
+(** Proofs for C09: structure of Task.get_arguments' output. *)
+From InvokeVerif Require Import Model.SigCtxModel Spec.C09Spec Proofs.C09_facts.
 From Coq Require Import Lia Permutation.
 
+Definition main_of (a : argspec) : string := hd "" (a_names a).
+Definition nicks_of (a : argspec) : list string := tl (a_names a).
+
+Ltac undash :=
+  repeat match goal with
+         | |- context [dashed ?x] => change (dashed x) with (translate_underscores x)
+         end.
+
+(** * arg_opts: one argument's shape *)
 Lemma arg_name_arg_opts dc pos p taken : arg_name (arg_opts dc pos p taken) = p_name p.
 Proof.
   unfold arg_opts, arg_name; cbn.
   destruct (contains_char us (p_name p)); reflexivity.
+Qed.
+
+Lemma first_free_char_spec dname taken rest cs :
+  first_free_char dname rest taken = Some cs ->
+  exists c, cs = String c EmptyString /\ Ascii.eqb c dash = false /\ cs <> dname /\
+            mem cs taken = false /\ contains_char c rest = true.
+Proof.
+  induction rest as [|c r IH]; cbn [first_free_char contains_char]; [discriminate|].
+  destruct (Ascii.eqb c dash) eqn:Ed.
+  - intros H. destruct (IH H) as [c' (H1 & H2 & H3 & H4 & H5)].
+    exists c'. repeat split; auto. rewrite H5. apply orb_true_r.
+  - destruct (String.eqb (String c "") dname || mem (String c "") taken) eqn:E.
+    + intros H. destruct (IH H) as [c' (H1 & H2 & H3 & H4 & H5)].
+      exists c'. repeat split; auto. rewrite H5. apply orb_true_r.
+    + intros H; injection H as <-. apply orb_false_iff in E. destruct E as [E1 E2].
+      exists c. repeat split; auto.
+      * now apply String.eqb_neq.
+      * now rewrite Ascii.eqb_refl.
+Qed.
+
+(** main name = dashed form of the parameter name, always *)
+Lemma main_of_arg_opts dc pos p taken :
+  main_of (arg_opts dc pos p taken) = dashed (p_name p).
+Proof.
+  unfold arg_opts, main_of; cbn. undash.
+  destruct (contains_char us (p_name p)) eqn:E; [reflexivity | now rewrite translate_id].
+Qed.
+
+Lemma names_arg_opts dc pos p taken :
+  a_names (arg_opts dc pos p taken) = [dashed (p_name p)] \/
+  exists c, a_names (arg_opts dc pos p taken) = [dashed (p_name p); String c EmptyString] /\
+            d_auto_short dc = true /\
+            Ascii.eqb c dash = false /\ String c EmptyString <> dashed (p_name p) /\
+            mem (String c EmptyString) taken = false /\
+            contains_char c (dashed (p_name p)) = true.
+Proof.
+  pose proof (main_of_arg_opts dc pos p taken) as Hm.
+  unfold arg_opts, main_of in *; cbn in *.
+  set (dn := if contains_char us (p_name p) then translate_underscores (p_name p) else p_name p) in *.
+  rewrite <- Hm.
+  destruct (d_auto_short dc); [|now left].
+  destruct (first_free_char dn dn taken) as [cs|] eqn:E; [|now left].
+  right. destruct (first_free_char_spec _ _ _ _ E) as [c (H1 & H2 & H3 & H4 & H5)].
+  subst cs. exists c. repeat split; auto.
+Qed.
+
+Lemma attr_arg_opts dc pos p taken :
+  a_attr_name (arg_opts dc pos p taken) =
+  if contains_char us (p_name p) then Some (p_name p) else None.
+Proof. reflexivity. Qed.
+
+(** * get_arguments: a permutation of the per-parameter arguments *)
+Lemma extract_perm nm l x r : extract nm l = Some (x, r) -> Permutation (x :: r) l.
+Proof.
+  revert x r. induction l as [|a l IH]; simpl; intros x r; [discriminate|].
+  destruct (String.eqb (arg_name a) nm).
+  - intros H; injection H as <- <-. apply Permutation_refl.
+  - destruct (extract nm l) as [[x' r']|]; [|discriminate].
+    intros H; injection H as <- <-.
+    eapply perm_trans; [apply perm_swap|]. apply perm_skip. now apply IH.
+Qed.
+
+Lemma move_front_perm nm l : Permutation (move_front nm l) l.
+Proof.
+  unfold move_front. destruct (extract nm l) as [[x r]|] eqn:E;
+    [now apply extract_perm in E | apply Permutation_refl].
+Qed.
+
+Lemma reorder_perm pos args : Permutation (reorder pos args) args.
+Proof.
+  unfold reorder. generalize (rev pos) as l. intros l. revert args.
+  induction l as [|n l IH]; intros args; simpl; [apply Permutation_refl|].
+  eapply perm_trans; [apply IH | apply move_front_perm].
+Qed.
+
+Lemma build_args_names dc pos ps : forall taken,
+  map arg_name (build_args dc pos ps taken) = map p_name ps.
+Proof.
+  induction ps as [|p ps IH]; intros taken; simpl; [reflexivity|].
+  now rewrite arg_name_arg_opts, IH.
+Qed.
+
+Lemma get_arguments_perm s :
+  Permutation (get_arguments s)
+    (build_args (s_deco s) (fill_implicit_positionals s) (s_params s) (map p_name (s_params s))).
+Proof. apply reorder_perm. Qed.
+
+Lemma one_arg_per_param s :
+  Permutation (map arg_name (get_arguments s)) (map p_name (s_params s)).
+Proof.
+  eapply perm_trans; [apply Permutation_map, get_arguments_perm|].
+  rewrite build_args_names. apply Permutation_refl.
+Qed.
+
+Lemma build_args_in dc pos ps : forall taken a,
+  In a (build_args dc pos ps taken) ->
+  exists p taken', In p ps /\ a = arg_opts dc pos p taken'.
+Proof.
+  induction ps as [|p ps IH]; intros taken a; simpl; [tauto|].
+  intros [H|H].
+  - exists p, taken. split; [now left | now symmetry].
+  - destruct (IH _ _ H) as [p' [t' [H1 H2]]]. exists p', t'. split; [now right | assumption].
+Qed.
+
+Lemma get_arguments_in s a :
+  In a (get_arguments s) ->
+  exists p taken, In p (s_params s) /\ a = arg_opts (s_deco s) (fill_implicit_positionals s) p taken.
+Proof.
+  intros H. apply (Permutation_in _ (get_arguments_perm s)) in H.
+  now apply build_args_in in H.
+Qed.
+
+(** * long flag *)
+Lemma long_flag_of_arg s a :
+  In a (get_arguments s) ->
+  main_of a = dashed (arg_name a) /\ to_flag (main_of a) = long_flag (arg_name a).
+Proof.
+  intros H. destruct (get_arguments_in _ _ H) as [p [t [_ ->]]].
+  rewrite main_of_arg_opts, arg_name_arg_opts. split; [reflexivity|].
+  unfold to_flag, long_flag. undash. now rewrite translate_idem.
+Qed.
+
+Lemma long_flag_wellformed n :
+  has_core n = true ->
+  (exists c, long_flag n = String "-" (String c EmptyString)) \/
+  (exists d, long_flag n = ("--" ++ d)%string /\ 2 <= String.length d).
+Proof.
+  unfold has_core, long_flag. intros H. apply negb_true_iff, String.eqb_neq in H.
+  destruct (dashed n) as [|c [|c' d]] eqn:E; [now elim H | |].
+  - left. now exists c.
+  - right. exists (String c (String c' d)). split; [reflexivity | simpl; lia].
+Qed.
+
+(** * at most one short flag *)
+Lemma at_most_one_short s a :
+  In a (get_arguments s) ->
+  a_names a = [main_of a] \/
+  exists c, a_names a = [main_of a; String c EmptyString] /\ Ascii.eqb c dash = false /\
+            String c EmptyString <> main_of a /\ contains_char c (main_of a) = true.
+Proof.
+  intros H. destruct (get_arguments_in _ _ H) as [p [t [_ ->]]].
+  rewrite main_of_arg_opts.
+  destruct (names_arg_opts (s_deco s) (fill_implicit_positionals s) p t) as [E|[c (E & _ & H1 & H2 & _ & H3)]].
+  - now left.
+  - right. exists c. auto.
+Qed.
+
+(** * kinds *)
+Lemma kind_arg_opts s pos p taken k :
+  expected_kind s p = Some k -> a_kind (arg_opts (s_deco s) pos p taken) = k.
+Proof.
+  unfold expected_kind, arg_opts; cbn.
+  destruct (p_default p); cbn;
+    destruct (mem (p_name p) (d_iterable (s_deco s)));
+    destruct (mem (p_name p) (d_optional (s_deco s))); cbn; intros H; congruence.
+Qed.
+
+Lemma bool_takes_no_value s pos p taken :
+  expected_kind s p = Some KBool -> takes_value (arg_opts (s_deco s) pos p taken) = false.
+Proof.
+  intros H. unfold takes_value. now rewrite (kind_arg_opts _ _ _ _ _ H).
+Qed.
+
+Lemma inverse_iff_default_true s pos p taken :
+  is_true_bool (arg_opts (s_deco s) pos p taken) = wants_inverse s p.
+Proof.
+  unfold wants_inverse, is_true_bool, arg_opts; cbn.
+  destruct (p_default p) as [| | | |[|]|]; cbn;
+    destruct (mem (p_name p) (d_iterable (s_deco s)));
+    destruct (mem (p_name p) (d_optional (s_deco s))); cbn; reflexivity.
+Qed.
+
+(** value of an unmentioned parameter *)
+Lemma fresh_value_arg_opts s pos p taken :
+  match p_default p with
+  | DEmpty => True
+  | d => fresh_value (arg_opts (s_deco s) pos p taken) = to_aval d \/
+         (listish s p = true /\ fresh_value (arg_opts (s_deco s) pos p taken) = AList [])
+  end.
+Proof.
+  unfold fresh_value, initial_value, listish, arg_opts; cbn.
+  destruct (p_default p) as [| |x|z|b|l]; cbn; auto;
+    destruct (mem (p_name p) (d_iterable (s_deco s)));
+    destruct (mem (p_name p) (d_optional (s_deco s)));
+    destruct (mem (p_name p) (d_incrementable (s_deco s))); cbn; auto;
+    try (destruct b; cbn; auto); try (destruct l; cbn; auto).
 Qed.
